@@ -28,7 +28,7 @@ LEVEL_TEXT = ("Exploration: all port-status sequences up to length 3 (thorough: 
               "Bounded search plus sampling, no proof.")
 LEVEL_NOTE = ("trusts the independent encoder pvf.ref.swbytes; field-level decoding is C01's subject and only the fields that "
               "identify an entry are compared; TCP segmentation is C02's subject, each message is delivered by one read()")
-RULE = ("a case is either (features reply with 0..4 ports, k notifications delivered before the handshake barrier reply, then "
+RULE = ("a case is either (features reply with 0..4 ports, k notifications delivered before the handshake is finished by the barrier reply or by the barrier-unsupported error, then "
         "<= 12 port-status / features messages) or (<= 3 statistics requests, each a list of parts, and a stream that merges "
         "the parts with other messages), each optionally with listeners that halt events on the nexus / the connection; non-trivial when a deleted port is re-added, a port is renamed or changes hardware "
         "address, or a reply has >= 3 parts; distinct by SHA-1 of the canonical JSON of the case")
@@ -48,6 +48,8 @@ EXHAUSTIVE_SCOPE = {
             "compositions of 6 entries into <= 6 parts x {flow, table, port, queue}; all 32 compositions x 4 types x 4 kinds "
             "of second reply x every gap x with/without other messages in every gap; every subset of the 4 raw events of a 4-part "
             "reply halted on the nexus or on the connection x aggregated event halted nowhere/nexus/connection x 3 ways of halting; "
+            "0..3 notifications buffered during the handshake (all sequences of <= 2, all of 3 on one port) x 4 initial sets x "
+            "handshake finished by barrier reply / by the barrier-unsupported error; "
             "all 2-notification sequences with PortStatus/FeaturesReceived listeners halting on nexus or connection"),
   "thorough": "as quick with notification sequences <= 4 from every initial subset and <= 5 from the full set",
 }
@@ -113,7 +115,7 @@ class _Con(object):
       if n > 1000:
         raise HarnessError("read loop does not drain")
 
-  def handshake(self, ports, early=()):
+  def handshake(self, ports, early=(), finish="barrier"):
     self.feed(sb.hello(0))
     self.feed(sb.features_reply(1, DPID, ports))
     msgs, rest = sb.split(bytes(self.sock.sent))
@@ -122,7 +124,11 @@ class _Con(object):
       raise HarnessError("expected one barrier request during the handshake, saw %r" % (bx,))
     for reason, rec in early:
       self.feed(sb.port_status(0, reason, rec))
-    self.feed(sb.barrier_reply(bx[0]))
+    if finish == "error":
+      # a switch without barrier support answers the barrier request with BAD_REQUEST / BAD_TYPE
+      self.feed(sb.error(bx[0], sb.OFPET_BAD_REQUEST, sb.OFPBRC_BAD_TYPE, sb.barrier_request(bx[0])))
+    else:
+      self.feed(sb.barrier_reply(bx[0]))
     if self.con.connect_time is None:
       raise HarnessError("handshake did not complete")
     # message handlers run inside read()'s catch-all; remember what they raise
@@ -285,9 +291,12 @@ def case_ports(case, out):
     for kind, cls in (("PortStatus", "ps"), ("FeaturesReceived", "feat")):
       c.w.nexus.addListenerByName(kind, listener("nexus", cls))
       c.con.addListenerByName(kind, listener("con", cls))
-    c.handshake(feat, [(op[1], op[2]) for op in ops[:early]])
+    finish = "error" if case.get("finish") == "error" else "barrier"
+    c.handshake(feat, [(op[1], op[2]) for op in ops[:early]], finish)
+    out.label("ports:handshake-finished-by-" + ("barrier-unsupported-error" if finish == "error" else "barrier-reply"))
     if early:
       out.label("ports:notifications-during-handshake")
+      out.label("ports:%d-notifications-during-handshake/%s" % (early, finish))
     names = list(NAMES)
     addrs = list(HWS)
     for r in list(feat) + [op[2] for op in ops if op[0] == "ps"] + [r for op in ops if op[0] == "feat" for r in op[1]]:
@@ -649,6 +658,18 @@ def enum_ports(tier):
     feat = [_rec(1), _rec(2)]
     for seq in itertools.product(alpha, repeat=5):
       yield {"k": "ports", "feat": feat, "early": 0, "ops": [list(s) for s in seq]}
+  # notifications buffered during the handshake, for both ways a handshake can finish (barrier reply, or the
+  # BAD_REQUEST/BAD_TYPE error of a switch without barriers): all sequences of <= 2, and of 3 on one port
+  # (includes add-then-delete and delete-then-re-add of the same port), all early; and one more afterwards
+  alpha1 = _alphabet([1])
+  for init in subsets:
+    feat = [_rec(n) for n in init]
+    for finish in ("barrier", "error"):
+      seqs = [()] + [(a,) for a in alpha] + list(itertools.product(alpha, repeat=2)) + list(itertools.product(alpha1, repeat=3))
+      for seq in seqs:
+        yield {"k": "ports", "feat": feat, "early": len(seq), "finish": finish, "ops": [list(x) for x in seq]}
+      for seq in itertools.product(alpha, repeat=2):
+        yield {"k": "ports", "feat": feat, "early": 1, "finish": finish, "ops": [list(x) for x in seq]}
   # listeners halting PortStatus / FeaturesReceived on the nexus and/or the connection
   for init in subsets:
     feat = [_rec(n) for n in init]
@@ -798,7 +819,8 @@ def _s_ports(draw, tier):
     else:
       ops.append(["ps", draw(st.sampled_from([0, 1, 2, 2])), draw(_s_rec())])
   early = draw(st.sampled_from([0, 0, 0, 1, 2, 3]))
-  return {"k": "ports", "feat": feat, "early": early, "ops": ops, "halt": draw(_s_halt(["ps", "feat"]))}
+  return {"k": "ports", "feat": feat, "early": early, "finish": draw(st.sampled_from(["barrier", "error"])),
+          "ops": ops, "halt": draw(_s_halt(["ps", "feat"]))}
 
 
 @st.composite
